@@ -22,7 +22,6 @@ Three-way check per generated model (documented export subset):
 
 Known defects of the pinned tree (generator avoids their triggers; witnesses in corpus/C15):
   D29_kwarg_name   a keyword-argument NAME that is also read as a rewritten global in the same scope
-  ifexp_order      `a if c else b` with function scopes in both a and c (libcst vs symtable order)
   (modelx itself rejects global names in default values of cells parameters: never generated)
 Repaired in /repo (the shapes are generated; witnesses stay in corpus/C15, reproducers in corpus/fixed/C15_<key>.py):
   comp_scope       a list comprehension that follows a sibling lambda/def/genexp in its function (py>=3.12) looked its
@@ -32,6 +31,9 @@ Repaired in /repo (the shapes are generated; witnesses stay in corpus/C15, repro
                    cpython3121_comp_sibling, NOT a modelx defect): a name bound by one inlined comprehension and read as a
                    global only in a later inlined comprehension of the same function - CPython 3.12.1 compiles it as a
                    local of the function, the model itself raises UnboundLocalError
+  ifexp_order      `a if c else b` with function scopes in both a and c: libcst lists the scopes of a first, symtable those
+                   of c, the symbol tables were paired crosswise (SyntaxError at import / AssertionError at export); the
+                   transformer now sorts the scopes of c before those of a
   self_local       a parameter / local variable / nested function / lambda parameter / comprehension variable named `self`
                    hid the instance parameter of the generated method.  Such a formula is outside the export subset
                    (Export/Model.v no_self is a hypothesis of every C15 theorem, Run.v stbl_okb checks it; export_model now
@@ -505,7 +507,9 @@ def run(tier, seed, rng):
                      "the module-level-names check of the dumped namespaces only: the Gallina evaluator has no strings / enum members / "
                      "attribute access on such values, so these references are opaque in the (E) tables and probe queries are left out of (E); "
                      "probe formulas are inside the grammar, so (T) covers their transformation")
-    out.notes.append("generator rejects formulas that trigger a recorded defect (decidable predicates in c15gen.triggers): %s" % json.dumps(stats["filtered"]))
+    out.notes.append("generator rejects formulas that trigger a recorded defect (decidable predicates in c15gen.triggers: D29, and "
+                     "cpython3121_comp_sibling, a defect of CPython 3.12.1 itself - the model raises UnboundLocalError; comp_scope, comp_var, "
+                     "ifexp_order, builtin_child and self_local are repaired in /repo and generated): %s" % json.dumps(stats["filtered"]))
     for c in cases[:40]:
         for s in c["spaces"]:
             for ce in s["cells"]:
